@@ -53,6 +53,7 @@ type Violation struct {
 	Msg       string                 `json:"msg"`
 	Inputs    map[string]replayInput `json:"inputs"`
 	Decisions string                 `json:"decisions"`
+	Markers   []string               `json:"markers"`
 	File      string                 `json:"file,omitempty"`
 	Confirmed *bool                  `json:"confirmed,omitempty"`
 }
@@ -550,13 +551,22 @@ func (e *Engine) reportViolationWithModel(kind, label, msg string) {
 			return
 		}
 	}
-	e.x.addViolation(Violation{Label: label, Kind: kind, Msg: msg, Inputs: inputs, Decisions: decString(e.trace)})
+	e.x.addViolation(Violation{Label: label, Kind: kind, Msg: msg, Inputs: inputs, Decisions: decString(e.trace), Markers: e.markerList()})
+}
+
+func (e *Engine) markerList() []string {
+	var out []string
+	for m := range e.markersHit {
+		out = append(out, m)
+	}
+	sort.Strings(out)
+	return out
 }
 
 // reportViolation for a violation on the current path condition (no extra negated literal).
 func (e *Engine) reportViolation(kind, label, msg string) {
 	if e.cfg.Concrete != nil {
-		e.x.addViolation(Violation{Label: label, Kind: kind, Msg: msg, Inputs: map[string]replayInput{}, Decisions: decString(e.trace)})
+		e.x.addViolation(Violation{Label: label, Kind: kind, Msg: msg, Inputs: map[string]replayInput{}, Decisions: decString(e.trace), Markers: e.markerList()})
 		return
 	}
 	e.reportViolationWithModel(kind, label, msg)
@@ -577,7 +587,7 @@ func decString(d []Dec) string {
 func (x *Explorer) addViolation(v Violation) {
 	x.mu.Lock()
 	defer x.mu.Unlock()
-	key := v.Kind + ":" + v.Label
+	key := v.Kind + ":" + v.Label + ":" + strings.Join(v.Markers, ",")
 	if v.Kind == "panic" {
 		key += ":" + v.Msg
 	}
